@@ -187,6 +187,37 @@ def build(tier="quick", seed=0):
 
     pack.add(Obligation("C02.pack[grouped]", lambda tier: prove_paths("C02.pack[grouped]", th_pack_grouped, judge_tree, lambda m_, p: {}, allow_raise=None), replay=lambda w: {"call": "c02_golden", "args": {}}, functions=FU))
 
+    # a write that is refused while the record is packed leaves a stream an independent decoder can still decode: every record frame is preceded by
+    # the descriptor frame of its type
+    def th_refused_then_written():
+        DL = it.call(RD, ["c02/dl", [("dictlist", "dl"), ("varint", "n")]], {})
+        fp = AbsFile(it, mode="wb")
+        w = it.call(st.g["RecordStreamWriter"], [fp], {})
+        try:
+            it.call(it.getattr_(w, "write"), [it.call(DL, [], {"dl": [{"k": {1, 2}}], "n": 1})], {})
+            return "an unpackable record was written"
+        except PyRaise:
+            pass
+        it.call(it.getattr_(w, "write"), [it.call(DL, [], {"dl": [{"k": "v"}], "n": SInt(x)})], {})
+        known, frames = set(), 0
+        for body in fp.content()[1::2]:
+            t = body.tree
+            if t[0] != "ext" or not isinstance(t[2], MPBytes):
+                continue
+            inner = t[2].tree[1]
+            sub = inner[0][1]
+            if sub == W.SUB_DESCRIPTOR:
+                known.add(inner[1][1][0][1])
+            elif sub == W.SUB_RECORD:
+                frames += 1
+                nm = inner[1][1][0][1][0][1]
+                if nm not in known:
+                    return f"a record frame of type {nm!r} is in the stream, its descriptor frame is not: an independent decoder cannot decode it"
+        return None if frames == 1 else f"{frames} record frames for one accepted record"
+
+    pack.add(Obligation("C02.history[a write refused while packing, then an accepted record of that type]", lambda tier: prove_paths("C02.history[a write refused while packing, then an accepted record of that type]", th_refused_then_written, lambda p: (p.value is None, str(p.value)), lambda m_, p: {}, allow_raise=("UnicodeEncodeError", "error")),
+                        replay=lambda w: {"call": "c02_refused_then_written", "args": {}}, functions=FU, mode="concrete history"))
+
     # ---------------------------------------------------------------- envelopes: reader against the format
     def packer_with(*descs):
         p = it.call(pk.g["RecordPacker"], [], {})
@@ -242,6 +273,24 @@ def build(tier="quick", seed=0):
         name = f"C02.compat[{extra} extra trailing metadata field(s)]"
         pack.add(Obligation(name, lambda tier, name=name, extra=extra: prove_paths(name, th_unpack_record(INR, extra=extra), judge_unpacked(), lambda m_, p: {"x": model_value(m_, x), "s": model_value(m_, sv)}, allow_raise=None),
                             replay=lambda w, extra=extra: {"call": "c02_compat", "args": {"extra": extra}}, functions=FU, mode="finite case analysis over 1..3 extra fields"))
+    def th_unpack_grouped_member(extra):
+        """a grouped-record frame whose member carries extra trailing metadata fields (written by a newer release): the member is read like a plain record"""
+        def th():
+            it.assume(INR)
+            D = it.call(RD, ["c02/rec", list(FIELDS)], {})
+            name, h = ident(D)
+            vals = rec_values(int_value_tree(x), SStr(sv))
+            vals = vals[:-1] + [W.leaf(f"extra{i}") for i in range(extra)] + [W.leaf(1)]
+            g = unpack(packer_with(D), W.grouped_tree(blob, "c02/grp", [(name, h, vals)]))
+            members = it.getattr_(g, "records") if isinstance(g, PObj) else []
+            o = members[0] if members else None
+            return o, (isinstance(o, PObj) and it.getattr_(o, "_desc") is D)
+        return th
+
+    for extra in (1, 2):
+        name = f"C02.compat[grouped record member with {extra} extra trailing metadata field(s)]"
+        pack.add(Obligation(name, lambda tier, name=name, extra=extra: prove_paths(name, th_unpack_grouped_member(extra), judge_unpacked(), lambda m_, p: {"x": model_value(m_, x), "s": model_value(m_, sv)}, allow_raise=None),
+                            replay=lambda w, extra=extra: {"call": "c02_compat", "args": {"extra": extra, "grouped": True}}, functions=FU, mode="finite case analysis over 1..2 extra fields"))
     pack.add(Obligation("C02.compat[no version field]", lambda tier: prove_paths("C02.compat[no version field]", th_unpack_record(INR, version=False), judge_unpacked(version=False), lambda m_, p: {}, allow_raise=None),
                         replay=lambda w: {"call": "c02_compat", "args": {"extra": -1}}, functions=FU))
     pack.add(Obligation("C02.compat[identifier is a bare name]", lambda tier: prove_paths("C02.compat[identifier is a bare name]", th_unpack_record(INR, ident_form="name"), judge_unpacked(), lambda m_, p: {}, allow_raise=None),
